@@ -960,11 +960,16 @@ with SqlImpl.impl_store.impl_manager as impl:
 
     @impl(ops.floor)
     def _floor(x):
-        return sqa.func.floor(x)
+        if isinstance(x.type, sqa.Integer):
+            # the result is a Float (the integer argument is implicitly converted)
+            x = sqa.cast(x, sqa.Double())
+        return sqa.func.floor(x, type_=x.type)
 
     @impl(ops.ceil)
     def _ceil(x):
-        return sqa.func.ceil(x)
+        if isinstance(x.type, sqa.Integer):
+            x = sqa.cast(x, sqa.Double())
+        return sqa.func.ceil(x, type_=x.type)
 
     @impl(ops.str_to_datetime)
     def _str_to_datetime(x):
